@@ -43,6 +43,9 @@ def run(ctx):
         on, oa, om = outcome_of(n), outcome_of(a), outcome_of(m)
         if on[0] in ("CRASH", "PANIC", "NILNIL") or oa[0] in ("CRASH", "PANIC", "NILNIL"):
             stats["crash"] += 1     # C14's subject; the pattern cannot be decided here
+            if crash_explained(ctx, n, a):
+                stats["crashes_explained_by_known_findings"] = stats.get("crashes_explained_by_known_findings", 0) + 1
+                continue
             ctx.add_broken("correspondence: a pattern crashed an entry point (see C14): %r" % p, "nfa=%s ast=%s" % (n[:200], a[:200]))
             continue
         if (on != om or oa != om) and ncorr < 20:
